@@ -288,6 +288,7 @@ func init() {
 			{"closure-ret", "unknown variables stay", ruleClosureRet},
 			{"regex-repl-literal", "values never become an expanding regexp replacement ($-interpretation)", ruleRegexReplLiteral},
 			{"prefix-append", "no append of new elements to a prefix of a slice whose tail is still needed", rulePrefixAppend},
+			{"split-aware", "tests for template syntax on the document-template path are made on joined text, never on a single run's text", ruleSplitAware},
 			{"runs-kept", "helpers that map a run list to a run list keep every run (collects-all analysis)", ruleRunsKept},
 		},
 		Assumptions: commonAssumptions,
@@ -302,6 +303,8 @@ func init() {
 			{"cross-call-state", "no renderer field carries values from one block to the next except the frozen, reasoned ones", ruleCrossCallState("WordRenderer", "(*WordRenderer).Render")},
 			{"softbreak", "every Text node reaches the soft-break test (must-pass-through in the Text case)", ruleSoftBreak},
 			{"code-verbatim", "code block lines are taken from the source without trimming leading whitespace", ruleCodeVerbatim},
+			{"fixpoint-progress", "rewrite-until-no-match loops make progress: the replacement callback never returns its argument unchanged on a feasible path", ruleFixpointProgress},
+			{"source-agree", "the renderer reads node text from the very buffer that was parsed (same SSA value)", ruleSourceAgree},
 		},
 		Assumptions: append([]string{"goldmark v1.7.8 node set; classification table in the checker (one reason per kind)"}, commonAssumptions...),
 	}
@@ -316,6 +319,7 @@ func init() {
 			{"pool-escape", "nothing taken from a package-level sync.Pool is returned to callers", rulePoolEscape(pkgMd)},
 			{"cross-call-state", "no writer field carries content from one element to the next except the frozen, reasoned ones", ruleCrossCallState("MarkdownWriter", "(*MarkdownWriter).Write")},
 			{"marshal-pure", "saving a document does not modify it: what is exported after a save is what was built", ruleMarshalPure},
+			{"export-all-cells", "every cell of every table row is exported: cells are visited by a range over the row's own cell list", ruleExportAllCells},
 		},
 		Assumptions: commonAssumptions,
 	}
